@@ -198,10 +198,10 @@ func genMsg(c *Ctx, codec string) []byte {
 		return genJSONMsg(c, 0)
 	}
 	sizes := []int{0, 0, 1, 2, 3, 5, 8, 13, 63, 64, 65, 127, 128, 129, 200, 255, 256, 300}
-	if c.Thorough() {
-		sizes = append(sizes, 1000, 16383, 16384, 16385)
-	}
 	n := sizes[c.Rng.Intn(len(sizes))]
+	if c.Thorough() && c.Rng.Intn(30) == 0 { // rare: the model replays every read of the long wire
+		n = []int{1000, 16383, 16384, 16385}[c.Rng.Intn(4)]
+	}
 	if c.Rng.Intn(3) == 0 {
 		n = c.Rng.Intn(20)
 	}
@@ -217,21 +217,25 @@ func writeNext(codec string, m []byte) []byte {
 }
 
 func genSched(c *Ctx, n int) []int {
+	// Long wires get proportionally coarser reads (the model replays every read, and a
+	// byte-wise replay of a 16 KiB message is quadratic in the driver); every wire up to
+	// 400 bytes keeps the byte-wise and 1..7-byte schedules.
+	scale := 1 + n/400
 	switch c.Rng.Intn(5) {
 	case 0:
 		return nil // everything at once
 	case 1:
-		s := make([]int, n+2)
+		s := make([]int, n/scale+2)
 		for i := range s {
-			s[i] = 1
+			s[i] = scale
 		}
 		return s
 	}
 	var s []int
 	for left := n + 3; left > 0; {
-		k := 1 + c.Rng.Intn(7)
+		k := (1 + c.Rng.Intn(7)) * scale
 		if c.Rng.Intn(5) == 0 {
-			k = 1 + c.Rng.Intn(300)
+			k = 1 + c.Rng.Intn(300*scale)
 		}
 		s = append(s, k)
 		left -= k
@@ -417,6 +421,9 @@ func runC17(c *Ctx) {
 			limit := 1 << 20
 			if codec == "body" {
 				limit = []int{1, 2, 3, 7, 16, 64, 100, 1000}[c.Rng.Intn(8)]
+				if q := len(wire)*len(wire)/2000000 + 1; limit < q { // every call is replayed with the remaining wire: bound calls x wire
+					limit = q
+				}
 			} else if len(ms) > 0 && c.Rng.Intn(3) == 0 {
 				// a limit around one of the message sizes
 				limit = max(1, len(ms[c.Rng.Intn(len(ms))])+c.Rng.Intn(3)-1)
